@@ -23,11 +23,12 @@ Gcd(a, b) == IF b = 0 THEN a ELSE Gcd(b, a % b)
 Abs(x) == IF x < 0 THEN 0 - x ELSE x
 Norm(n, d) == LET g == Gcd(Abs(n), d) IN IF g = 0 THEN [n |-> 0, d |-> 1] ELSE [n |-> n \div g, d |-> d \div g]
 Rat(n, d) == Norm(n, d)
-RAdd(a, b) == Norm(a.n * b.d + b.n * a.d, a.d * b.d)
+\* (lowest common denominator / cross-reduction first: intermediate products must stay below 2^31)
+RAdd(a, b) == LET g == Gcd(a.d, b.d) IN Norm(a.n * (b.d \div g) + b.n * (a.d \div g), (a.d \div g) * b.d)
 RMulInt(a, k) == Norm(a.n * k, a.d)
-RLt(a, b) == a.n * b.d < b.n * a.d
-RLe(a, b) == a.n * b.d <= b.n * a.d
-REq(a, b) == a.n * b.d = b.n * a.d
+RLt(a, b) == LET g == Gcd(a.d, b.d) IN a.n * (b.d \div g) < b.n * (a.d \div g)
+RLe(a, b) == LET g == Gcd(a.d, b.d) IN a.n * (b.d \div g) <= b.n * (a.d \div g)
+REq(a, b) == LET g == Gcd(a.d, b.d) IN a.n * (b.d \div g) = b.n * (a.d \div g)
 RCmp(op, a, b) == CASE op = "eq"  -> REq(a, b)
                     [] op = "neq" -> ~REq(a, b)
                     [] op = "lt"  -> RLt(a, b)
